@@ -65,7 +65,7 @@ def pool_array(aid):
     if aid == "A2":
         return _mk(["x"], [XL], ["i"], "i", 2, {"n": 3})
     if aid == "A3":
-        return _mk(["z"], [ZL], ["f"], "i", 3, {"units": "m"}, {"z": {"pos": 1.5}}, dtype=np.int32)
+        return _mk(["z"], [ZL], ["f"], "i", 3, {"units": "m"}, {"z": {"pos": 1.5, "ndim": 0, "size": 3, "shape": "flat"}}, dtype=np.int32)   # (axis metadata named like array properties)
     if aid == "A4":
         return _mk([], [], [], "f", 4, {"note": "scalar"})
     if aid == "A5":
